@@ -204,6 +204,25 @@ func (s *sim) build(n *tg.Node) ([]byte, *cut) {
 	return nil, nil
 }
 
+// class: the known-finding situation the builder provably meets on this schema ("" = none).
+func (s *sim) class(g *tg.Graph, root *tg.Node, inh map[string]bool) string {
+	switch {
+	case s.err == "orcontainer":
+		return "K-C15-orcontainer"
+	case s.uninhabited(g, root, inh):
+		return "K-C15-uninhabited"
+	case s.keyAlias:
+		return "K-C15-keyalias"
+	case s.cutOr:
+		return "K-C15-or"
+	case s.cutArr:
+		return "K-C15-arraycut"
+	case s.cutReq:
+		return "K-C15-reqcut"
+	}
+	return ""
+}
+
 func (s *sim) uninhabited(g *tg.Graph, root *tg.Node, inh map[string]bool) bool {
 	if !tg.Inhabited(root, inh) {
 		return true
